@@ -52,3 +52,17 @@ reg("C06", "DESIGN.md#7", "abstract interpretation of consumer failure handler, 
     "discipline and absence of swallowing handlers, routing of every branch outcome (incl. BackgroundThreadError) to the completion event and re-raise by the "
     "waiter, the wrapper's outcome for a background failure (raise or FAILED, never SUCCEEDED/PENDING), and that a failed checkpoint ends the operation.",
     "Schedules are not explored (the handshake is an argued pairing); wall-clock promptness is not decided.")
+reg("C07", "DESIGN.md#8", "abstract interpretation (suspending paths, suspend decision per BranchStatus, wrapper) + blocking-call inventory + CFG dominance",
+    "Decides record-before-suspend on every suspending path, exhaustiveness/soundness of the concurrent suspend decision over BranchStatus, who may catch "
+    "SuspendExecution and that the wrapper answers a bare PENDING, that every unbounded blocking call is registered with its wake-up rule, and "
+    "reset-before-resubmit in the timer loop.",
+    "Termination over invocations, spinning, and 'no user function still running' under every schedule are explicitly not decided.")
+reg("C09", "DESIGN.md#10", "abstract interpretation of _create_result / execute(empty) + sibling cross-check of decision vs classifier atoms",
+    "Decides exhaustive faithful item mapping per BranchStatus, input order, branches only through the bounded pool, agreement of threshold atoms and of the "
+    "fail-fast guard between the stop decision and the completion-reason classifier, and termination on empty input.",
+    "The return instant relative to running branches and real parallelism are runtime facts; known finding: fail-fast guard mismatch (pinned by tests).")
+reg("C10", "DESIGN.md#11", "abstract interpretation of create_checkpoint (guard/lock/mark ordering) + information-flow necessary conditions + lock discipline",
+    "Decides guard-before-enqueue under the lock, marking exactly on CONTEXT SUCCEED/FAIL from the completing context, transitive marking, lock discipline "
+    "of the tree, inert orphan handler, first-time operations checkpoint before user code, and the two information-flow conditions (guard reads the parent "
+    "link; tree fed from history) which today are known findings.",
+    "Completion instants relative to branches are not explored.")
